@@ -41,11 +41,13 @@ theorem tags_agree :
     HabConsts.insKeyFlags.lookup "ABS" = some Spec.insKeyABS ∧ HabConsts.engines.lookup "OCOTP" = some Spec.engOCOTP ∧
     HabConsts.needUidEngine = "OCOTP" := by decide
 
+/-- struct formats are generated as their normalised field list (`"<7L"`, `"<LLLLLLL"`, `"<IIIIIII"` all read `<IIIIIII`):
+    the fields, their widths and the byte order are what the model is written against, not the spelling -/
 theorem formats_agree :
-    HabConsts.headerFormat = ">BHB" ∧ HabConsts.ivt2Format = "<7L" ∧ HabConsts.bdtFormat = "<3L" ∧
-    HabConsts.xmcdHeaderFormat = "<4B" ∧ HabConsts.insKeyPack.map Prod.fst = [">4BL"] ∧
-    HabConsts.autDatPack.map Prod.fst = [">4BL", ">2L"] ∧ HabConsts.setPack.map Prod.fst = ["4B"] ∧
-    HabConsts.unlockPack.map Prod.fst = [">L", ">Q"] ∧ HabConsts.macPack.map Prod.fst = [">4B"] := by decide
+    HabConsts.headerFormat = ">BHB" ∧ HabConsts.ivt2Format = "<IIIIIII" ∧ HabConsts.bdtFormat = "<III" ∧
+    HabConsts.xmcdHeaderFormat = "<BBBB" ∧ HabConsts.insKeyPack.map Prod.fst = [">BBBBI"] ∧
+    HabConsts.autDatPack.map Prod.fst = [">BBBBI", ">II"] ∧ HabConsts.setPack.map Prod.fst = ["BBBB"] ∧
+    HabConsts.unlockPack.map Prod.fst = [">I", ">Q"] ∧ HabConsts.macPack.map Prod.fst = [">BBBB"] := by decide
 
 theorem sizes_agree :
     HabConsts.ivt2Size = Spec.ivtSize ∧ HabConsts.bdtSize = Spec.bdtSize ∧ HabConsts.csfSize = Spec.csfSize ∧
